@@ -23,7 +23,8 @@ namespace
     };
     Run *g = nullptr;
 
-    std::string msg_of(long id, long c) { return "boom id=" + std::to_string(id) + " cycle=" + std::to_string(c); }
+    // the same node fails with the SAME message every time (an error tick must not be suppressed because it equals the previous one)
+    std::string msg_of(long id, long) { return "boom id=" + std::to_string(id); }
 
     struct Src
     {
@@ -56,6 +57,17 @@ namespace
             if (ts.modified()) sched.schedule(MIN_TD, std::string{"t"});
             if ((g->throw_mask[id.value()] >> c) & 1u) throw std::runtime_error(msg_of(id.value(), c));
             out.set(ts.value() * 2 + (ts.modified() ? 0 : 1));
+        }
+    };
+    struct PerpetualThrower   // once started by an input tick it re-schedules ITSELF every step (untagged) until cycle 6
+    {
+        static constexpr auto name = "c15_perpetual_thrower";
+        static void eval(In<"ts", TS<Int>> ts, NodeScheduler sched, Scalar<"id", Int> id, DateTime now, Out<TS<Int>> out)
+        {
+            const long c = rel(now);
+            if (c < 6) sched.schedule(MIN_TD);
+            if ((g->throw_mask[id.value()] >> c) & 1u) throw std::runtime_error(msg_of(id.value(), c));
+            out.set(ts.value() * 2 + c);
         }
     };
     struct KeyThrower
@@ -149,9 +161,9 @@ namespace
             {
                 auto src = wire<Src>(w);
                 wire<IntProbe>(w, wire<AddOne>(w, src), Int{1});   // independent sibling
-                if (program == 'n' || program == 's')
+                if (program == 'n' || program == 's' || program == 'p')
                 {
-                    Port<TS<Int>> th = program == 'n' ? wire<Thrower>(w, src, Int{0}) : wire<TimerThrower>(w, src, Int{0});
+                    Port<TS<Int>> th = program == 'n' ? wire<Thrower>(w, src, Int{0}) : (program == 's' ? wire<TimerThrower>(w, src, Int{0}) : wire<PerpetualThrower>(w, src, Int{0}));
                     auto err = exception_time_series(th);
                     wire<IntProbe>(w, th, Int{2});
                     wire<ErrProbe>(w, err, Int{3});
@@ -225,7 +237,8 @@ namespace
             return out;
         }
         expect_equal(1, "the stream of a node that does not depend on the failing node");
-        const int val_id = (program == 'n' || program == 's') ? 2 : 21, err_id = (program == 'n' || program == 's') ? 3 : 20;
+        const bool direct = program == 'n' || program == 's' || program == 'p';
+        const int val_id = direct ? 2 : 21, err_id = direct ? 3 : 20;
         std::vector<Tick> want_err, want_val;
         for (auto &t : stream(ref, val_id)) { if ((cfg.throw_mask[0] >> t.t) & 1u) want_err.push_back({t.t, msg_of(0, t.t)}); else want_val.push_back(t); }
         if (!out.violation && stream(got, err_id) != want_err)
@@ -251,11 +264,11 @@ void verif_enumerate(verif::Ctx &ctx)
 {
     const bool th = ctx.thorough();
     const int T = 5;
-    for (char program : std::string{"ns123"})
+    for (char program : std::string{"nsp123"})
         for (unsigned im = 1; im < (1u << T); ++im)
-            for (unsigned tm = 0; tm < (1u << (program == 's' ? T + 1 : T)); ++tm)
+            for (unsigned tm = 0; tm < (1u << ((program == 's' || program == 'p') ? T + 2 : T)); ++tm)
             {
-                if (!th && program != 'n' && program != 's' && (im & 1u) == 0) continue;   // quick: try_except programs start ticking in cycle 0
+                if (!th && program != 'n' && program != 's' && program != 'p' && (im & 1u) == 0) continue;   // quick: try_except programs start ticking in cycle 0
                 if (!ctx.next_is_mine()) continue;
                 const std::string desc = std::string(1, program) + "|" + std::to_string(im) + "|" + std::to_string(tm);
                 ++ctx.evaluations; ++ctx.traces;
